@@ -41,7 +41,8 @@ type dirRepo struct {
 	wg        sync.WaitGroup
 	wgBlock   chan struct{}
 	timeCheck time.Time
-	timeMod   time.Time
+	timeIndex time.Time // mod time of the index.json that is loaded
+	timeMod   time.Time // last change to the repo, the GC skips repos without a recent change
 	name      string
 	path      string
 	exists    bool
@@ -384,6 +385,10 @@ func (dr *dirRepo) blobCreate(locked bool, opts ...BlobOpt) (BlobCreator, string
 			return nil, "", err
 		}
 	}
+	if !locked {
+		dr.mu.Lock()
+		defer dr.mu.Unlock()
+	}
 	// if blob exists, return the appropriate error
 	if conf.expect != "" {
 		if err := conf.expect.Validate(); err != nil {
@@ -395,12 +400,9 @@ func (dr *dirRepo) blobCreate(locked bool, opts ...BlobOpt) (BlobCreator, string
 			// the content was just pushed again, refresh the time used by the GC grace period
 			now := time.Now()
 			_ = os.Chtimes(blobName, now, now)
+			dr.timeMod = now
 			return nil, "", types.ErrBlobExists
 		}
-	}
-	if !locked {
-		dr.mu.Lock()
-		defer dr.mu.Unlock()
 	}
 	sessionID, err := genSessionID()
 	if err != nil {
@@ -441,6 +443,8 @@ func (dr *dirRepo) blobCreate(locked bool, opts ...BlobOpt) (BlobCreator, string
 		sessionID: sessionID,
 	}
 	dr.timeMod = time.Now()
+	// the next check of the index reads index.json again
+	dr.timeIndex = time.Time{}
 	dr.uploads.Set(sessionID, bc)
 	return bc, sessionID, nil
 }
@@ -607,7 +611,7 @@ func (dr *dirRepo) indexLoad(force, locked bool) error {
 		return err
 	}
 	dr.timeCheck = time.Now()
-	if dr.timeMod == stat.ModTime() {
+	if dr.timeIndex.Equal(stat.ModTime()) {
 		// file is unchanged from previous loaded version
 		return nil
 	}
@@ -617,7 +621,11 @@ func (dr *dirRepo) indexLoad(force, locked bool) error {
 		return err
 	}
 	dr.index = parseIndex
-	dr.timeMod = stat.ModTime()
+	dr.timeIndex = stat.ModTime()
+	// a later change to the repo (blob upload) is not forgotten when the index is loaded
+	if dr.timeMod.Before(dr.timeIndex) {
+		dr.timeMod = dr.timeIndex
+	}
 	dr.exists = true
 
 	mod, err := indexIngest(dr, &dr.index, dr.conf, locked)
@@ -667,7 +675,10 @@ func (dr *dirRepo) indexSave(locked bool) error {
 	if err != nil {
 		return fmt.Errorf("failed to stat index.json for tracking mod time: %w", err)
 	}
-	dr.timeMod = fi.ModTime()
+	dr.timeIndex = fi.ModTime()
+	if dr.timeMod.Before(dr.timeIndex) {
+		dr.timeMod = dr.timeIndex
+	}
 	return nil
 }
 
@@ -820,6 +831,7 @@ func (dru *dirRepoUpload) delete() error {
 	go func() {
 		dru.dr.mu.Lock()
 		dru.dr.timeMod = time.Now()
+		dru.dr.timeIndex = time.Time{}
 		dru.dr.mu.Unlock()
 	}()
 	// always return nil, even on errors, to allow entry to be removed from upload session list
